@@ -267,6 +267,22 @@ def oracle(case):
 		return (o.value, sorted((k if isinstance(k, bytes) else k.encode(), v if not isinstance(v, bytes) else v.decode('utf-8', 'replace')) for k, v in o.params.items()))
 	exp = [(o.value, sorted((k if isinstance(k, bytes) else k.encode(), v) for k, v in o.params.items())) for o in objs]
 	got = [canon(o) for o in back]
+	# elements built without parameters are values of their own: a parameter given to one does not show on the next
+	if kind == 'generic':
+		from httoop.header.element import HeaderElement
+		try:
+			e1 = HeaderElement(u'first')
+			e1.params['zz-first'] = 'x'
+			e2 = HeaderElement(u'second')
+			w2 = bytes(e2)
+			if w2 != b'second' or dict(HeaderElement.parse(w2).params):
+				return {'what': 'an element built without parameters composes as %r after another such element was given a parameter' % w2, 'finding': None}
+			e3 = HeaderElement(u'third', e1.params)
+			e3.params['zz-third'] = 'y'
+			if b'zz-third' in bytes(e1):
+				return {'what': 'a parameter given to an element built from the parameters of another shows on that other: %r' % bytes(e1), 'finding': None}
+		except Exception as e:
+			return {'what': 'building elements without parameters raised %s: %s' % (exc_name(e), e), 'finding': None}
 	# the other public ways to write the same parameters: Headers.append(name, value, **params) and formatparam(..., quote=True)
 	if not fid and kind == 'generic':
 		from httoop import Headers
